@@ -12,12 +12,11 @@ def is_cow(a):
 def run(prop, tier, prefixes, *, names=ALL, act_filter=None, quick_pairs=12000, thorough_pairs=None, need=("cow", "raised", "specified", "changed"),
         rule="", assumptions=(), fault_pairs=(0, 0), fault_stride=(1, 1)):
     rep = common.Report(prop, tier)
-    events, res = R.collect(rep, names, tier, act_filter=act_filter, max_pairs=quick_pairs if tier != "thorough" else thorough_pairs, seed=common.seed(),
-                            fault_pairs=fault_pairs[tier == "thorough"], fault_stride=fault_stride[tier == "thorough"])
-    R.report_clauses(rep, events, res, prefixes)
-    distinct = len({common.canon([e["scn"], e["pre"], e["a"]]) for e in events if e["res"] != "ok" or e["recv_post"] != e["pre"] or not e["same"]})
-    pick = [e for e in (events[3], events[len(events) // 2], events[-2])]
-    rep.add_events(len(events), distinct, [{k: e[k] for k in ("scn", "a", "pre", "recv_post", "res", "result", "same")} for e in pick])
+    result = R.collect(rep, names, tier, act_filter=act_filter, max_pairs=quick_pairs if tier != "thorough" else thorough_pairs, seed=common.seed(),
+                       fault_pairs=fault_pairs[tier == "thorough"], fault_stride=fault_stride[tier == "thorough"])
+    R.report_clauses(rep, result, prefixes)
+    res = {"ante": result["ante"]}
+    rep.add_events(result["n"], result["distinct"], [{k: e[k] for k in ("scn", "a", "pre", "recv_post", "res", "result", "same")} for e in result["samples"][:3]])
     rep.coverage.update({"scenarios": list(names), "judge_antecedents": res["ante"], "clauses_kept": list(prefixes),
                          "exhaustive": tier == "thorough" and thorough_pairs is None})
     for k in need:
